@@ -1,6 +1,7 @@
 // common.hpp — shared by all correspondence drivers: case-file loop, tokens,
 // integer-kind dispatch, canonical printing.
 #pragma once
+#include <csetjmp>
 #include <csignal>
 #include <cstdint>
 #include <cstdio>
@@ -102,6 +103,30 @@ inline std::vector<T> parse_list(const std::string& s)
   return out;
 }
 
+// a hardware fault (null / guard page access) inside a case is an outcome, not
+// the end of the run: recover with siglongjmp and report FAULT
+inline sigjmp_buf g_fault_jmp;
+inline volatile sig_atomic_t g_in_case = 0;
+inline void fault_handler(int sig)
+{
+  if (g_in_case) siglongjmp(g_fault_jmp, sig);
+  std::signal(sig, SIG_DFL);
+  std::raise(sig);
+}
+inline void install_fault_handler()
+{
+  static char altstack[1 << 16];
+  stack_t ss;
+  ss.ss_sp = altstack; ss.ss_size = sizeof(altstack); ss.ss_flags = 0;
+  sigaltstack(&ss, nullptr);
+  struct sigaction sa;
+  std::memset(&sa, 0, sizeof(sa));
+  sa.sa_handler = fault_handler;
+  sa.sa_flags = SA_NODEFER | SA_ONSTACK;
+  sigaction(SIGSEGV, &sa, nullptr);
+  sigaction(SIGBUS, &sa, nullptr);
+}
+
 // main loop: argv[1] = case file, argv[2] = number of leading cases to skip
 // (used by the runner to resume after a crash).  One result line per case.
 template<typename F>
@@ -115,10 +140,18 @@ inline int case_loop(int argc, char** argv, F&& run_case)
   long skip = argc > 2 ? std::atol(argv[2]) : 0;
   std::string line;
   long n = 0;
+  install_fault_handler();
   while (std::getline(in, line)) {
     if (n++ < skip) continue;
     toks_t toks = split(line);
     std::string out;
+    if (sigsetjmp(g_fault_jmp, 1) != 0) {
+      g_in_case = 0;
+      std::fputs("FAULT\n", stdout);
+      std::fflush(stdout);
+      continue;
+    }
+    g_in_case = 1;
     try {
       out = run_case(toks);
     } catch (const std::runtime_error& e) {
@@ -128,6 +161,7 @@ inline int case_loop(int argc, char** argv, F&& run_case)
     } catch (...) {
       out = "EXC";
     }
+    g_in_case = 0;
     std::fputs(out.c_str(), stdout);
     std::fputc('\n', stdout);
     std::fflush(stdout);
